@@ -38,6 +38,28 @@ Definition is_vec (r : val O) (px py pz scale : R) (dm : dims) : Prop :=
               /\ x * scale = px /\ y * scale = py /\ z * scale = pz.
 End R.
 
+(* evaluate only the translated term inside is_qty / is_nan / is_vec, leaving the
+   specification side of the goal folded *)
+Ltac sem_eval :=
+  match goal with
+  | |- is_qty ?h ?mn ?r ?p ?s ?d ?t =>
+      let r' := eval cbv -[Rplus Rminus Rmult Rdiv Rinv Ropp IZR sqrt sin cos atan2 atan asin exp Rabs PI
+                           Rleb Rltb Reqb Rle_dec Rlt_dec Req_EM_T] in r in
+      change (is_qty h mn r' p s d t)
+  | |- is_qty' ?h ?mn ?r ?p ?s ?d =>
+      let r' := eval cbv -[Rplus Rminus Rmult Rdiv Rinv Ropp IZR sqrt sin cos atan2 atan asin exp Rabs PI
+                           Rleb Rltb Reqb Rle_dec Rlt_dec Req_EM_T] in r in
+      change (is_qty' h mn r' p s d)
+  | |- is_nan ?h ?mn ?r ?s ?d ?t =>
+      let r' := eval cbv -[Rplus Rminus Rmult Rdiv Rinv Ropp IZR sqrt sin cos atan2 atan asin exp Rabs PI
+                           Rleb Rltb Reqb Rle_dec Rlt_dec Req_EM_T] in r in
+      change (is_nan h mn r' s d t)
+  | |- is_vec ?h ?mn ?r ?x ?y ?z ?s ?d =>
+      let r' := eval cbv -[Rplus Rminus Rmult Rdiv Rinv Ropp IZR sqrt sin cos atan2 atan asin exp Rabs PI
+                           Rleb Rltb Reqb Rle_dec Rlt_dec Req_EM_T] in r in
+      change (is_vec h mn r' x y z s d)
+  end.
+
 (* the float class the kernels promise: float32 iff the data operand is float32 *)
 Definition fdt (d : dtype) : dtype := match d with DF32 => DF32 | _ => DF64 end.
 Definition fdt2 (a b : dtype) : dtype := match a, b with DF32, DF32 => DF32 | _, _ => DF64 end.
@@ -60,7 +82,8 @@ Ltac pos :=
     | idtac ].
 Ltac nonneg := apply Rlt_le; pos.
 
-Ltac qty_intro := eexists; eexists; split; [reflexivity|]; split; [reflexivity|]; split.
+Ltac nan_intro := eexists; split; [reflexivity|]; split.
+Ltac qty_intro := unfold is_qty; eexists; eexists; split; [reflexivity|]; split; [reflexivity|]; split.
 
 Lemma sqrt_scale a k b : 0 < k -> 0 <= b -> a * (k * k) = b * b -> sqrt a * k = b.
 Proof.
